@@ -16,7 +16,13 @@
  *   lkapi <file> <func> / lkcb <file> <func> <callee> <k>   facts of the static scan of the tree (sites file)
  *
  * Tokens: L U (API entry/exit)  K+ K- (coap_lock_callback)  R+ R- (…_ret)  X+ X- (…_release)  Y+ Y- (…_ret_release)
- *         W+ W- (release window of an internal function: coap_lock_unlock(c) … coap_lock_lock(c, failed)).
+ *         W+ W- (release window of an internal function: coap_lock_unlock(c) … coap_lock_lock(c, failed))
+ *         S (application code calls the library's coap_startup() again).
+ *   lkheld <file> <func>                       what the function does under the lock (static scan, sites file)
+ *   lkio <rc> <scenario 0..3> <workers 1..3> <seed>   the real I/O loop doing TIMER-DRIVEN work (keepalive ping of an idle
+ *                                              UDP / TCP client session, retransmission + NACK, idle server session
+ *                                              expiry) while worker threads call the API and every callback re-enters it:
+ *                                              `ok` | `ineffective` | `stuck threads=<io|w<i>>,… …` | `unserialised …`
  *   lkwin <file> <func>                        lock-balance facts of the static scan (sites file)
  *   lkeintr <rc>                               an I/O thread in coap_io_process() is interrupted by a signal while
  *                                              another thread holds the lock inside an event callback: `ok` |
@@ -95,9 +101,9 @@ static void print_obs(const char *prefix) {
 }
 
 /* ------------------------------------------------------------------ token programs */
-enum { T_L, T_U, T_KI, T_KO, T_RI, T_RO, T_XI, T_XO, T_YI, T_YO, T_WI, T_WO, T_BAD };
+enum { T_L, T_U, T_KI, T_KO, T_RI, T_RO, T_XI, T_XO, T_YI, T_YO, T_WI, T_WO, T_S, T_BAD };
 static int tok_of(const char *s) {
-  static const char *n[] = {"L", "U", "K+", "K-", "R+", "R-", "X+", "X-", "Y+", "Y-", "W+", "W-"};
+  static const char *n[] = {"L", "U", "K+", "K-", "R+", "R-", "X+", "X-", "Y+", "Y-", "W+", "W-", "S"};
   for (int i = 0; i < T_BAD; i++) if (!strcmp(s, n[i])) return i;
   return T_BAD;
 }
@@ -114,6 +120,7 @@ static int well_nested(const int *t, int n) {
     case T_U: if (top != 0) return 0; sp--; break;
     case T_KI: case T_RI: case T_XI: case T_YI: case T_WI: if (top != 0) return 0; st[sp++] = (unsigned char)(1 + (t[i] - T_KI) / 2); break;
     case T_KO: case T_RO: case T_XO: case T_YO: case T_WO: if (top != 1 + (t[i] - T_KO) / 2) return 0; sp--; break;
+    case T_S: if (top == 0) return 0; break;       /* application code only (top level or inside a callback) */
     default: return 0;
     }
   }
@@ -205,8 +212,14 @@ static void run_lib(prog_t *p) {
 }
 
 static void run_app(prog_t *p) {
-  while (p->pos < p->n && p->tok[p->pos] == T_L) {
+  while (p->pos < p->n && (p->tok[p->pos] == T_L || p->tok[p->pos] == T_S)) {
     turn_begin(p);
+    if (p->tok[p->pos] == T_S) {   /* the application calls coap_startup() again: the library's own function */
+      p->pos++;
+      coap_startup();
+      turn_end(p);
+      continue;
+    }
     p->pos++;
     coap_lock_lock(ctx, h_fault = 1);
     turn_end(p);
@@ -379,7 +392,8 @@ static void do_cfg(void) {
 static const char *sites_path;
 static void do_site(const char *kind, char **w, int n) {
   /* sites file lines:  api <file> <func> <locks> <lkd> <unlocks>  |  cb <file> <func> <callee> <k> <wrapped>
-   *                    win <file> <func> <held> <windows> <exits> <loops> <fail> <order> <quiet> */
+   *                    win <file> <func> <held> <windows> <exits> <loops> <fail> <order> <quiet>
+   *                    held <file> <func> <entry: held|takes> <calls under the lock> <of them to the public API> */
   char line[1024];
   FILE *f = sites_path ? fopen(sites_path, "r") : NULL;
   if (!f) { printf("no-sites"); return; }
@@ -392,6 +406,9 @@ static void do_site(const char *kind, char **w, int n) {
     if (!strcmp(kind, "win") && m == 10 && n == 2 && !strcmp(v[1], w[0]) && !strcmp(v[2], w[1])) {
       printf("held=%s windows=%s exits=%s loops=%s fail=%s order=%s quiet=%s", v[3], v[4], v[5], v[6], v[7], v[8], v[9]);
       fclose(f); return;
+    }
+    if (!strcmp(kind, "held") && m == 6 && n == 2 && !strcmp(v[1], w[0]) && !strcmp(v[2], w[1])) {
+      printf("entry=%s calls=%s api_calls=%s", v[3], v[4], v[5]); fclose(f); return;
     }
     if (!strcmp(kind, "cb") && m == 6 && n == 4 && !strcmp(v[1], w[0]) && !strcmp(v[2], w[1]) && !strcmp(v[3], w[2]) && !strcmp(v[4], w[3])) {
       printf("wrapped=%s", v[5]); fclose(f); return;
@@ -510,6 +527,270 @@ static void do_eintr(void) {
 static void do_eintr(void) { printf("no-epoll"); }
 #endif
 
+/* ------------------------------------------------------------------ lkio: timer-driven work of the I/O thread
+ * The I/O thread's coap_io_process() does more than wait: coap_io_prepare_io_lkd() sends keepalive pings for idle client
+ * sessions, retransmits, gives up (NACK handler), expires idle server sessions (event handler) — all of it library code
+ * running under the lock with in_callback = 0.  One scenario per line makes the real loop reach one of these branches
+ * while 1..3 worker threads keep calling the public API (among them a repeated coap_startup()) and every callback
+ * re-enters the API:
+ *   0  keepalive (1 s) on an idle UDP client session whose peer is silent     evidence: the peer socket got the ping
+ *   1  keepalive (1 s) on an idle TCP client session to the context's own TCP endpoint   evidence: pong handler ran
+ *   2  CON to a silent peer, ack_timeout 1 s (the minimum): retransmission    evidence: MSG_RETRANSMITTED event
+ *   3  session_timeout 1 s, a served UDP server session goes idle              evidence: SERVER_SESSION_DEL event
+ * Judged: every thread keeps making progress (a watchdog: no thread's counter stands still for 3 s; all threads join),
+ * no lock-owner assert() of the lock functions fires, no API call of a worker completes while the I/O thread is inside
+ * a lock-KEEPING callback (coap_lock_callback / _ret).  Runs in a forked child: a deadlocked run is simply abandoned. */
+#if LOCKING && defined(COAP_EPOLL_SUPPORT)
+#include <poll.h>
+#include <sys/wait.h>
+#include <sys/socket.h>
+#include <netinet/in.h>
+#include <arpa/inet.h>
+#include <time.h>
+#define IO_MAXW 3
+static coap_context_t *io_ctx;
+static coap_session_t *io_sess;
+static volatile int io_stop, io_overlap;
+static volatile unsigned io_gen;                 /* odd while the I/O thread is inside a lock-keeping callback */
+static volatile long io_prog[IO_MAXW + 1];       /* [0] = I/O thread */
+static volatile int io_cnt[8];                   /* request response nack event ping pong session-del retransmitted */
+static long io_now_ms(void) {
+  struct timespec ts;
+  clock_gettime(CLOCK_MONOTONIC, &ts);
+  return ts.tv_sec * 1000L + ts.tv_nsec / 1000000L;
+}
+static void io_reenter(coap_session_t *sn) {
+  /* public API from inside a callback: lock-taking wrappers and a repeated coap_startup() */
+  if (sn) (void)coap_new_message_id(sn);
+  coap_startup();
+  (void)coap_can_exit(io_ctx);
+}
+static void io_kept(coap_session_t *sn, int which) {   /* body of a callback invoked with the lock kept */
+  io_cnt[which]++;
+  io_gen++;
+  __sync_synchronize();
+  io_reenter(sn);
+  usleep(4000);
+  __sync_synchronize();
+  io_gen++;
+}
+static void io_hnd_get(coap_resource_t *r, coap_session_t *sn, const coap_pdu_t *req, const coap_string_t *q, coap_pdu_t *resp) {
+  (void)r; (void)req; (void)q;
+  io_cnt[0]++;
+  io_reenter(sn);
+  coap_pdu_set_code(resp, COAP_RESPONSE_CODE_CONTENT);
+}
+static coap_response_t io_hnd_resp(coap_session_t *sn, const coap_pdu_t *sent, const coap_pdu_t *rcv, const coap_mid_t mid) {
+  (void)sent; (void)rcv; (void)mid;
+  io_cnt[1]++;
+  io_reenter(sn);
+  return COAP_RESPONSE_OK;
+}
+static void io_hnd_nack(coap_session_t *sn, const coap_pdu_t *sent, const coap_nack_reason_t reason, const coap_mid_t mid) {
+  (void)sent; (void)reason; (void)mid;
+  io_kept(sn, 2);
+}
+static int io_hnd_event(coap_session_t *sn, const coap_event_t ev) {
+  if (ev == COAP_EVENT_SERVER_SESSION_DEL) io_cnt[6]++;
+  if (ev == COAP_EVENT_MSG_RETRANSMITTED) io_cnt[7]++;
+  io_kept(sn, 3);
+  return 0;
+}
+static void io_hnd_ping(coap_session_t *sn, const coap_pdu_t *rcv, const coap_mid_t mid) { (void)rcv; (void)mid; io_kept(sn, 4); }
+static void io_hnd_pong(coap_session_t *sn, const coap_pdu_t *rcv, const coap_mid_t mid) { (void)rcv; (void)mid; io_kept(sn, 5); }
+
+static void *io_loop(void *arg) {
+  (void)arg;
+  self = NULL;
+  while (!io_stop) {
+    coap_io_process(io_ctx, 50);
+    io_prog[0]++;
+  }
+  return NULL;
+}
+typedef struct { int idx; unsigned seed; } io_warg_t;
+static void *io_worker(void *arg) {
+  io_warg_t *w = (io_warg_t *)arg;
+  unsigned st = w->seed * 2654435761u + (unsigned)w->idx * 40503u + 1;
+  self = NULL;
+  while (!io_stop) {
+    unsigned g0;
+    st = st * 1103515245u + 12345u;
+    g0 = io_gen;
+    __sync_synchronize();
+    switch ((st >> 16) % 4) {
+    case 0: (void)coap_new_message_id(io_sess); break;
+    case 1: (void)coap_can_exit(io_ctx); break;
+    case 2: coap_startup(); (void)coap_can_exit(io_ctx); break;       /* "a second component initialises libcoap" */
+    default: (void)coap_new_message_id(io_sess); (void)coap_can_exit(io_ctx); break;
+    }
+    __sync_synchronize();
+    /* the call began and ended inside one and the same lock-keeping callback of the I/O thread */
+    if ((g0 & 1) && io_gen == g0) io_overlap = 1;
+    io_prog[w->idx]++;
+    usleep(500 + (st >> 8) % 3000);
+  }
+  return NULL;
+}
+static void io_loopback(coap_address_t *a, int port) {
+  coap_address_init(a);
+  a->addr.sin.sin_family = AF_INET;
+  a->addr.sin.sin_addr.s_addr = htonl(INADDR_LOOPBACK);
+  a->addr.sin.sin_port = htons((uint16_t)port);
+  a->size = sizeof(struct sockaddr_in);
+}
+static void io_send(coap_session_t *sn, coap_pdu_type_t type, unsigned tokv) {
+  uint8_t tok[4];
+  coap_pdu_t *p = coap_new_pdu(type, COAP_REQUEST_CODE_GET, sn);
+  if (!p) return;
+  memcpy(tok, &tokv, 4);
+  coap_add_token(p, 4, tok);
+  coap_add_option(p, COAP_OPTION_URI_PATH, 1, (const uint8_t *)"r");
+  coap_send(sn, p);
+}
+static void io_child(int scen, int workers, unsigned seed, int out) {
+  char res[200];
+  pthread_t io, wt[IO_MAXW];
+  io_warg_t wa[IO_MAXW];
+  coap_address_t dst, any;
+  coap_endpoint_t *ep = NULL;
+  int peer = -1, effective = 0, stuck = -1;
+  long t0, t_eff = 0, last_change[IO_MAXW + 1], last_val[IO_MAXW + 1];
+  struct timespec dl;
+#define IO_DONE(...) do { int n_ = snprintf(res, sizeof(res), __VA_ARGS__); if (write(out, res, (size_t)n_)) {} _exit(0); } while (0)
+  alarm(0);
+  h_real_block = 1;
+  h_fault = 0;
+  self = NULL;
+  if (getenv("LKIO_LOG")) coap_set_log_level((coap_log_t)atoi(getenv("LKIO_LOG")));
+  io_ctx = coap_new_context(NULL);
+  if (!io_ctx) IO_DONE("no-context");
+  coap_register_response_handler(io_ctx, io_hnd_resp);
+  coap_register_nack_handler(io_ctx, io_hnd_nack);
+  coap_register_event_handler(io_ctx, io_hnd_event);
+  coap_register_ping_handler(io_ctx, io_hnd_ping);
+  coap_register_pong_handler(io_ctx, io_hnd_pong);
+  {
+    coap_resource_t *r = coap_resource_init(coap_make_str_const("r"), 0);
+    coap_register_request_handler(r, COAP_REQUEST_GET, io_hnd_get);
+    coap_add_resource(io_ctx, r);
+  }
+  io_loopback(&any, 0);
+  if (scen == 0 || scen == 2) {
+    struct sockaddr_in sin;
+    socklen_t sl = sizeof(sin);
+    peer = socket(AF_INET, SOCK_DGRAM, 0);
+    memset(&sin, 0, sizeof(sin));
+    sin.sin_family = AF_INET;
+    sin.sin_addr.s_addr = htonl(INADDR_LOOPBACK);
+    if (peer < 0 || bind(peer, (struct sockaddr *)&sin, sizeof(sin)) < 0 || getsockname(peer, (struct sockaddr *)&sin, &sl) < 0)
+      IO_DONE("setup-failed peer");
+    io_loopback(&dst, ntohs(sin.sin_port));
+    io_sess = coap_new_client_session(io_ctx, NULL, &dst, COAP_PROTO_UDP);
+  } else {
+    ep = coap_new_endpoint(io_ctx, &any, scen == 1 ? COAP_PROTO_TCP : COAP_PROTO_UDP);
+    if (!ep) IO_DONE("setup-failed endpoint");
+    dst = ep->bind_addr;
+    io_sess = coap_new_client_session(io_ctx, NULL, &dst, scen == 1 ? COAP_PROTO_TCP : COAP_PROTO_UDP);
+  }
+  if (!io_sess) IO_DONE("setup-failed session");
+  if (scen == 0 || scen == 1) coap_context_set_keepalive(io_ctx, 1);
+  if (scen == 2) {
+    coap_fixed_point_t t = {1, 0}, f = {1, 0};
+    coap_session_set_ack_timeout(io_sess, t);
+    coap_session_set_ack_random_factor(io_sess, f);
+  }
+  if (scen == 3) coap_context_set_session_timeout(io_ctx, 1);
+
+  io_stop = io_overlap = 0; io_gen = 0;
+  pthread_create(&io, NULL, io_loop, NULL);
+  for (int i = 0; i < workers; i++) { wa[i].idx = i + 1; wa[i].seed = seed; pthread_create(&wt[i], NULL, io_worker, &wa[i]); }
+  if (scen == 2) io_send(io_sess, COAP_MESSAGE_CON, seed | 1);
+  if (scen == 3) io_send(io_sess, COAP_MESSAGE_NON, seed | 1);
+
+  t0 = io_now_ms();
+  for (int i = 0; i <= IO_MAXW; i++) { last_change[i] = t0; last_val[i] = -1; }
+  for (;;) {
+    long t;
+    usleep(5000);
+    t = io_now_ms();
+    for (int i = 0; i <= workers; i++) {
+      long v = io_prog[i];
+      if (v != last_val[i]) { last_val[i] = v; last_change[i] = t; }
+      else if (t - last_change[i] > 3000 && stuck < 0) stuck = i;
+    }
+    if (stuck >= 0 || h_fault || io_overlap) break;
+    if (!effective) {
+      char b[64];
+      switch (scen) {
+      case 0: effective = recv(peer, b, sizeof(b), MSG_DONTWAIT) >= 4; break;
+      case 1: effective = io_cnt[5] > 0; break;
+      case 2: effective = io_cnt[7] > 0; break;
+      default: effective = io_cnt[6] > 0; break;
+      }
+      if (effective) t_eff = t;
+    }
+    if (effective && t - t_eff > 250) break;
+    if (t - t0 > 12000) break;
+  }
+  io_stop = 1;
+  clock_gettime(CLOCK_REALTIME, &dl);
+  dl.tv_sec += 3;
+  if (stuck < 0) {
+    for (int i = 0; i < workers; i++) if (pthread_timedjoin_np(wt[i], NULL, &dl) && stuck < 0) stuck = i + 1;
+    if (pthread_timedjoin_np(io, NULL, &dl) && stuck < 0) stuck = 0;
+  }
+  if (stuck >= 0) {
+    /* name every thread that stands still (a self-deadlocked lock holder takes everybody else with it) */
+    char who[64] = "";
+    long t = io_now_ms();
+    for (int i = 0; i <= workers; i++)
+      if (i == stuck || (io_prog[i] == last_val[i] && t - last_change[i] > 2000))
+        snprintf(who + strlen(who), sizeof(who) - strlen(who), "%s%s%.0d", who[0] ? "," : "", i ? "w" : "io", i);
+    IO_DONE("stuck threads=%s lock-owner-assert=%d", who, h_fault);
+  }
+  if (h_fault || io_overlap) IO_DONE("unserialised api-call-during-locked-callback=%d lock-owner-assert=%d", io_overlap, h_fault);
+  coap_session_release(io_sess);
+  coap_free_context(io_ctx);
+  if (h_fault) IO_DONE("unserialised api-call-during-locked-callback=0 lock-owner-assert=1");
+  IO_DONE(effective ? "ok" : "ineffective");
+}
+static void do_io(int scen, int workers, unsigned seed) {
+  int pfd[2], st = 0;
+  char buf[256];
+  size_t len = 0;
+  pid_t pid;
+  long t0 = io_now_ms();
+  if (scen < 0 || scen > 3 || workers < 1 || workers > IO_MAXW) { printf("bad-op"); return; }
+  if (pipe(pfd)) { printf("no-pipe"); return; }
+  fflush(stdout);
+  pid = fork();
+  if (pid < 0) { printf("no-fork"); return; }
+  if (pid == 0) {
+    close(pfd[0]);
+    io_child(scen, workers, seed, pfd[1]);
+    _exit(0);
+  }
+  close(pfd[1]);
+  for (;;) {
+    struct pollfd pf = { pfd[0], POLLIN, 0 };
+    long left = 40000 - (io_now_ms() - t0);
+    ssize_t r;
+    if (left <= 0 || poll(&pf, 1, (int)left) <= 0) { kill(pid, SIGKILL); len = (size_t)snprintf(buf, sizeof(buf), "stuck child-timeout"); break; }
+    r = read(pfd[0], buf + len, sizeof(buf) - 1 - len);
+    if (r <= 0) break;
+    len += (size_t)r;
+  }
+  close(pfd[0]);
+  waitpid(pid, &st, 0);
+  buf[len] = 0;
+  if (!len) printf("crash child-status=%d", WIFEXITED(st) ? WEXITSTATUS(st) : 1000 + WTERMSIG(st));
+  else fputs(buf, stdout);
+}
+#else
+static void do_io(int scen, int workers, unsigned seed) { (void)scen; (void)workers; (void)seed; printf("ok"); }
+#endif
+
 /* ------------------------------------------------------------------ lksmoke (support: TSan multi-thread run) */
 static const char *smoke_bin;
 static void do_smoke(const char *n, const char *seed, const char *ms) {
@@ -572,12 +853,13 @@ static void step(char *line) {
   if (l >= sizeof(copy)) { printf("bad-op"); return; }
   memcpy(copy, line, l); copy[l] = 0;
   int n = h_words(line, w, MAXTOK + 8);
-  if (n >= 2 && (!strcmp(w[0], "lkseq") || !strcmp(w[0], "lksched") || !strcmp(w[0], "lkeintr"))) {
+  if (n >= 2 && (!strcmp(w[0], "lkseq") || !strcmp(w[0], "lksched") || !strcmp(w[0], "lkeintr") || !strcmp(w[0], "lkio"))) {
     int rc = !strcmp(w[1], "1") ? 1 : !strcmp(w[1], "0") ? 0 : -1;
     if (rc < 0) { printf("bad-op"); return; }
     if (rc != MY_RC) { co_forward(copy); return; }
-    alarm(20);
-    if (!strcmp(w[0], "lkeintr")) { if (n == 2) do_eintr(); else printf("bad-op"); }
+    alarm(!strcmp(w[0], "lkio") ? 60 : 20);
+    if (!strcmp(w[0], "lkio")) { if (n == 5) do_io(atoi(w[2]), atoi(w[3]), (unsigned)atoi(w[4])); else printf("bad-op"); }
+    else if (!strcmp(w[0], "lkeintr")) { if (n == 2) do_eintr(); else printf("bad-op"); }
     else if (!strcmp(w[0], "lkseq")) do_seq(w + 2, n - 2);
     else if (n == 4) do_sched(w[2], w[3]);
     else printf("bad-op");
@@ -589,6 +871,7 @@ static void step(char *line) {
   if (n == 3 && !strcmp(w[0], "lkapi")) { do_site("api", w + 1, 2); return; }
   if (n == 5 && !strcmp(w[0], "lkcb")) { do_site("cb", w + 1, 4); return; }
   if (n == 3 && !strcmp(w[0], "lkwin")) { do_site("win", w + 1, 2); return; }
+  if (n == 3 && !strcmp(w[0], "lkheld")) { do_site("held", w + 1, 2); return; }
   if (n == 2 && !strcmp(w[0], "lkctxfail")) { alarm(20); do_ctxfail(atoi(w[1])); alarm(0); return; }
   printf("bad-op");
 }
